@@ -8,7 +8,8 @@ Inductive text_case :=
 | TReport (r : freport) (enc : res jreport) (raw : option bytes) (dec : res freport)   (* Encode (as the JSON struct, and its exact bytes), Decode(Encode) *)
 | TDecode (j : jreport) (out : res freport)                   (* Decode of a JSON document built from j *)
 | TPack (t : ptuple) (packed : res jpack) (unpacked : res ptuple)    (* Pack (viewed as the JSON struct), Unpack(Pack) *)
-| TPackBytes (t : ptuple) (sigs_nil : bool) (raw : bytes).           (* the exact bytes Pack returned *)
+| TPackBytes (t : ptuple) (sigs_nil : bool) (raw : bytes)            (* the exact bytes Pack returned ... *)
+             (ud : res (bytes * Z * freport * list (bytes * Z))).   (* ... and UnpackDecode of them *)
 
 Definition freport_eqb (a b : freport) : bool :=
   bytes_eqb (f_digest a) (f_digest b) && (f_seq a =? f_seq b) && (f_chan a =? f_chan b) && (f_va a =? f_va b) &&
@@ -50,13 +51,26 @@ Definition text_agrees (c : text_case) : bool :=
   | TPack t packed unpacked =>
       res_agree jpack_eqb (Ok (pack_model t)) packed &&
       match packed with Ok j => res_agree ptuple_eqb (unpack_model j) unpacked | _ => true end
-  | TPackBytes t sn raw =>
+  | TPackBytes t sn raw ud =>
       bytes_eqb (json_pack_bytes t sn) raw &&
       forallb (fun sg => match b64_decode (b64_encode (fst sg)) with Some b => bytes_eqb b (fst sg) | None => false end) (pt_sigs t) &&
       (* the reader model recovers the tuple from the real bytes (when the report has the codec's own shape) *)
       match json_report_parse (pt_report t) with
       | Some _ => match json_unpack_bytes raw with
-                  | Some (t', sn') => ptuple_eqb t t' && match pt_sigs t with [] => Bool.eqb sn sn' | _ => true end
+                  | Some (t', sn') =>
+                      ptuple_eqb t t' && match pt_sigs t with [] => Bool.eqb sn sn' | _ => true end &&
+                      (* UnpackDecode = Unpack, then Decode of the report *)
+                      match json_report_parse (pt_report t') with
+                      | Some j => match json_decode j, ud with
+                                  | Some (Ok r'), Ok (d, sq, r, sg) =>
+                                      bytes_eqb d (pt_digest t') && (sq =? pt_seq t') && freport_eqb r r' && sigs_eqb sg (pt_sigs t')
+                                  | Some (Err _), Err _ => true
+                                  | Some (Panic _), Panic _ => true
+                                  | None, _ => true
+                                  | _, _ => false
+                                  end
+                      | None => true
+                      end
                   | None => false
                   end
       | None => true
@@ -81,7 +95,12 @@ Definition c17_case (c : text_case) : bool :=
       else negb (is_panic enc) && negb (is_panic dec)
   | TPack t packed unpacked => match packed, unpacked with Ok _, Ok t' => ptuple_eqb t t' | _, _ => false end
   | TParse _ _ out | TDecode _ out => negb (is_panic out)
-  | TPackBytes _ _ _ => true
+  | TPackBytes t _ _ ud =>
+      match ud with
+      | Ok (d, sq, _, sg) => bytes_eqb d (pt_digest t) && (sq =? pt_seq t) && sigs_eqb sg (pt_sigs t)
+      | Err _ => true
+      | Panic _ => false
+      end
   end.
 
 Definition text_eval (cs : list text_case) :=
@@ -93,4 +112,4 @@ Definition text_eval (cs : list text_case) :=
     length (filter (fun c => match c with TReport _ _ _ _ => true | _ => false end) cs);
     length (filter (fun c => match c with TDecode _ _ => true | _ => false end) cs);
     length (filter (fun c => match c with TPack _ _ _ => true | _ => false end) cs);
-    length (filter (fun c => match c with TPackBytes _ _ _ => true | _ => false end) cs)]).
+    length (filter (fun c => match c with TPackBytes _ _ _ _ => true | _ => false end) cs)]).
